@@ -14,7 +14,7 @@ PROPERTY = "C19"
 LEVEL = "exploration"
 RULE = (
     "four base files (2.0 with ~V ~W ~P ~X ~C ~A; one with duplicated mnemonics; one version 1.2; one made of terse lines without description or without period); junk = every string "
-    "of length 1..3 (thorough 1..4) over {. : blank a 1 \" - ( ) # / E _ ,} plus adversarial long lines (500 periods, 500 "
+    "of length 1..3 (thorough 1..4) over {. : blank a 1 \" - ( ) # / E _ , ~} (never with a leading tilde) plus adversarial long lines (500 periods, 500 "
     "colons, quotes only, 5000 digits, ':.', '.:', '..:', parsable lines carrying 25-40 digit integers, 1e999, hex); inserted at every line boundary inside ~V, ~W, ~P and the "
     "custom section, one line at a time, and all pairs (two junk lines at two sites) over the short strings and over eight parsable lines ('%' in the name, blank and literal UNKNOWN names, a 5000-character name, the name of a genuine item), the same line twice included; each text "
     "is read with and without ignore_header_errors; non-trivial = junk that is neither blank nor a '#' comment"
@@ -25,7 +25,7 @@ ASSUMPTIONS = [
     "~C is not a junk site (any parsable line there legitimately declares a curve)",
 ]
 
-ALPHA = [".", ":", " ", "a", "1", '"', "-", "(", ")", "#", "/", "E", "_", ","]
+ALPHA = [".", ":", " ", "a", "1", '"', "-", "(", ")", "#", "/", "E", "_", ",", "~"]
 LONG = ["." * 500, ":" * 500, '"' * 40, "'" * 40, "1" * 5000, ":.", ".:", "..:", ". .", ": :", "a" * 300 + ".", "." + "a" * 300,
         "a.b.c.d:e:f:g", "\t", "\t.\t:\t", "((((", "[[]]", "a b c d e f g h", "1.2.3.4:5:6", "%s %d {0}", "\\", "\\.\\:",
         # parsable lines whose value is far outside every machine number range
@@ -35,7 +35,9 @@ LONG = ["." * 500, ":" * 500, '"' * 40, "'" * 40, "1" * 5000, ":.", ".:", "..:",
         "{0}.{1} {2} : {}", "A. 1 : same name as a genuine item",
         # a colon and a period, the period only after the colon; units made of brackets only
         "?? no idea : n.a. ??", "what : n.a.", "x : 1.5", "no.idea : a.b : c", "!!.[] ;; : --", ".()", "REMARK.[()] n/a : see below",
-        "a.[] : b", "a.() 1 : c", "a.[[]] : d", "a.)( 1 : e", "a.( : f"]
+        "a.[] : b", "a.() 1 : c", "a.[[]] : d", "a.)( 1 : e", "a.( : f",
+        # a tilde that is not the first non-blank character of the line (only a LEADING tilde makes a title line)
+        "approx ~ 5 m of rathole", 'x "~" y', "a.~ 1 : d", "a. ~ : d", "TEMP.DEGC ~20 : approximately", "a~b.c~d e~f : g~h", "see ~Well above", "a : ~"]
 # parsable junk inserted twice (same line at two sites, and every ordered pair): duplicates take another path than single items
 PAIR_EXTRA = ["REC%. 100 : core recovery", "a%d. 1 : x", "%. 5 : p", "junk.unit value : descr", "A. 1 : same name as a genuine item",
               ". 3 : blank name", "UNKNOWN. 4 : literal unknown", "X" * 5000 + ". 1 : very long name"]
@@ -83,6 +85,8 @@ def junk_strings(maxlen, full_upto=None):
     for k in range(1, maxlen + 1):
         alpha = ALPHA if (full_upto is None or k <= full_upto) else CORE_ALPHA
         for t in itertools.product(alpha, repeat=k):
+            if "".join(t).lstrip().startswith("~"):
+                continue  # a leading tilde makes a section title, which the statement excludes
             out.append("".join(t))
     return out
 
